@@ -54,13 +54,14 @@ Proof.
   cbn [last]. now rewrite orb_false_r, orb_diag.
 Qed.
 
-Lemma new_from_span_correct p m q msg :
-  new_from_span (p ++ m ++ q) (blen p, blen p + blen m) msg =
+Lemma new_from_span_correct fx p m q msg :
+  new_from_span fx (p ++ m ++ q) (blen p, blen p + blen m) msg =
   Ok {| e_location := ISpan (blen p, blen p + blen m);
         e_line_col := LSpan (spec_line_col p) (end_lc (p ++ m));
         e_path := None;
         e_line := display (span_vis m) (hd [] (texts_of p m q));
-        e_continued := if span_vis m then last_text (texts_of p m q)
+        e_continued := if fx then option_map visualize_whitespace (last_text (texts_of p m q))
+                       else if span_vis m then last_text (texts_of p m q)
                        else option_map visualize_whitespace (last_text (texts_of p m q));
         e_message := msg |}.
 Proof.
@@ -132,18 +133,18 @@ Proof.
   - rewrite count_nl_app. lia.
 Qed.
 
-Theorem render_span_no_panic p m q msg :
-  exists out, render_span (p ++ m ++ q) (blen p, blen p + blen m) msg = Ok out.
+Theorem render_span_no_panic fx p m q msg :
+  exists out, render_span fx (p ++ m ++ q) (blen p, blen p + blen m) msg = Ok out.
 Proof.
   unfold render_span. rewrite new_from_span_correct. cbn [bind].
-  set (cont := if span_vis m then _ else _).
+  set (cont := if fx then _ else _).
   destruct (underline_span_ok (ISpan (blen p, blen p + blen m)) None (spec_line_col p) (end_lc (p ++ m))
               (display (span_vis m) (hd [] (texts_of p m q))) cont msg (spec_col_ge1 p) (end_lc_col_ge2 (p ++ m))) as (u & Hu).
   unfold format. cbn [e_line_col e_continued]. destruct cont as [cl|] eqn:Ec.
   - (* a continued line exists: the span text is not empty, so the end line is not before the start line *)
     assert (Hm : m <> []).
     { intros ->. subst cont. unfold texts_of in Ec. rewrite (last_text_none_of_tl _ _ (meet_empty_span p q)) in Ec.
-      destruct (span_vis []); discriminate. }
+      destruct fx; [|destruct (span_vis [])]; discriminate. }
     unfold e_start. cbn [e_line_col fst]. rewrite rsub_ok by (apply end_line_ge; exact Hm). cbn [bind].
     rewrite Hu. cbn [bind]. destruct (Nat.ltb 1 _); eexists; reflexivity.
   - rewrite Hu. cbn [bind]. eexists. reflexivity.
